@@ -9,10 +9,11 @@ set_option linter.unusedSimpArgs false
 namespace TarpcModel.Client
 open TarpcModel
 
-/-- the in-flight entry with id `id` is due for expiry at `now` -/
+/-- the in-flight entry with id `id` is due for expiry at `now`: its timer tick has passed and nothing of its
+`remainder` is left after taking off the lateness, measured — as the code does — from the exact due time `dueAt` -/
 def DueEntry (id now : Nat) (s : St) : Prop :=
   ∃ en ∈ s.inflight, en.id = id ∧ ∃ w, s.timers.Has en.timerKey en.id w ∧ w * nsPerMs ≤ now ∧
-    en.remainder ≤ now - w * nsPerMs
+    en.remainder ≤ now - en.dueAt
 
 /-- no queued request has id `id`; the in-flight entry with that id is due, or there is none -/
 structure DueOr (id now : Nat) (s : St) : Prop where
@@ -175,7 +176,6 @@ theorem DueOr.expireWith {x : Option Nat} {b : Snap} {s : St} (h : Inv' x b s no
               rw [hk0, hid0] at hw'
               have hwe : w' = e.whenMs := (DelayQ.Has.functional h.t.wf hw' h1).2
               subst hwe
-              have hdue' := (h.t.due en' hen' e.whenMs (by rw [hk0, hid0]; exact h1)).2.2.1
               omega
             · exact hno en hen hval
           · have hS : DueOr id now { s with timers := q', inflight := s.inflight.map (rearmEntry e.val key cut due') } := by
